@@ -14,5 +14,6 @@ for d in seeded/*/; do
   n=$(echo "$out" | grep -c VIOLATION)
   if [ $rc -eq 1 ]; then echo "$id $prop: caught ($n violations)"; else echo "$id $prop: MISSED (rc=$rc) $(echo "$out" | tail -1)"; miss=1; fi
 done
+git -C /verif checkout -- evidence 2>/dev/null  # restore the clean-tree evidence files
 rm -rf replays
 exit $miss
